@@ -280,7 +280,7 @@ class Ctx:
                 verdicts[v["sc"]] = v
         if not r.ok:
             log(r.out[-3000:])
-            raise Inconclusive("trace validation with %s did not complete: %s" % (tracemodule, r.violated or r.error or "?"))
+            raise Inconclusive("trace validation with %s did not complete: %s" % (mon, r.violated or r.error or "?"))
         return verdicts, r
 
     # --------------------------------------------------------------- verdicts
